@@ -535,6 +535,8 @@ class Interp:
             return f.ctor(self, list(args), dict(kwargs))
         if hasattr(f, "pyvc_call"):
             return f.pyvc_call(self, list(args), dict(kwargs))
+        if is_z3(f) and f.sort() == V and self.models.opaque(self):
+            return self.models.opaque_call(self, f, list(args), dict(kwargs))
         raise Unsupported(f"call of {f!r}")
 
     def instantiate(self, cls, args, kwargs):
